@@ -4,6 +4,7 @@ import (
 	"fmt"
 	"go/token"
 	"go/types"
+	"regexp"
 	"sort"
 	"strings"
 
@@ -251,13 +252,28 @@ func runC16(c *Ctx, r *Report, tier string) {
 	for _, s := range c.callersOfName("(*Parser).writeHelpOption") {
 		rowCl = s.Fn
 		deps := c.depsOf(s.Fn, s.Call)
+		// the command whose rows are being printed: the variable tested by the header of the walk loop this call sits in
+		topLit := "eq(Parser.Command(P0), cell:*Command)"
+		for _, l := range c.loopsDeep(wh) {
+			iff, isIf := l.Header.Instrs[len(l.Header.Instrs)-1].(*ssa.If)
+			inL := c.inLoop(l, s.Call.Block())
+			if mc := c.closureSite[s.Fn]; mc != nil && c.inLoop(l, mc.Block()) {
+				inL = true // the row is written by a closure made inside the walk loop
+			}
+			if !isIf || !inL {
+				continue
+			}
+			if m := walkCellRe.FindStringSubmatch(c.cond(iff.Cond).Term); m != nil {
+				topLit = "eq(Parser.Command(P0), " + m[1] + ")"
+			}
+		}
 		need := map[string]bool{"¬hidden": false, "builtin|top": false, "shows": false}
 		var extra []string
 		for _, l := range deps {
 			switch {
 			case l.Term == "Group.Hidden(P0)" && !l.Pos:
 				need["¬hidden"] = true
-			case l.Term == "Group.isBuiltinHelp(P0)", l.Term == "eq(Parser.Command(P0), cell:*Command)" && l.Pos:
+			case l.Term == "Group.isBuiltinHelp(P0)", l.Term == topLit && l.Pos:
 				// (the top-level test is itself reached through the isBuiltinHelp edge)
 				need["builtin|top"] = true
 			case strings.HasPrefix(l.Term, "call:(*Option).showInHelp(idx(Group.options(P0)") && l.Pos:
@@ -268,7 +284,7 @@ func runC16(c *Ctx, r *Report, tier string) {
 			}
 		}
 		_, r1 := c.Requires(s.Fn, isInstr(s.Call), litIs("Group.Hidden(P0)", false), nil)
-		_, r2 := c.Requires(s.Fn, isInstr(s.Call), anyLit(litIs("Group.isBuiltinHelp(P0)", false), litIs("eq(Parser.Command(P0), cell:*Command)", true)), nil)
+		_, r2 := c.Requires(s.Fn, isInstr(s.Call), anyLit(litIs("Group.isBuiltinHelp(P0)", false), litIs(topLit, true)), nil)
 		_, r3 := c.Requires(s.Fn, isInstr(s.Call), litHas(true, "call:(*Option).showInHelp(idx(Group.options(P0)"), nil)
 		r.Check(r1 && r2 && r3, "ROW", c.fname(s.Fn), "help option row requires visibility", c.ipos(s.Call), "REQ(¬grp.Hidden) ∧ REQ(¬builtin-help ∨ top-level) ∧ REQ(option.showInHelp())", fmt.Sprintf("¬Hidden=%v builtin|top=%v showInHelp=%v", r1, r2, r3))
 		r.Check(len(extra) == 0, "ROW", c.fname(s.Fn), "help option row has no other guard", c.ipos(s.Call), "control-dependence closure contains only the visibility conditions and loop tests", "a visible option can be skipped by: "+strings.Join(extra, "; "))
@@ -686,3 +702,5 @@ func (c *Ctx) callersOfName(name string) []CallSite {
 	s, _ := c.callersOf(fn)
 	return s
 }
+
+var walkCellRe = regexp.MustCompile(`^nonnil\((cell:\*Command(?:#\d+)?)\)$`)
